@@ -569,8 +569,11 @@ func (c *Ctx) oneOfSchema(depth int) *Schema {
 		prop := c.SafeName("kind", "disc")
 		s.Discriminator = &Discriminator{PropertyName: prop}
 		withMapping := rapid.Bool().Draw(t, "mapping")
+		mapStyle := ""
 		if withMapping {
 			s.Discriminator.Mapping = map[string]string{}
+			mapStyle = rapid.SampledFrom([]string{"full", "first-only", "random", "random"}).Draw(t, "mapping_style")
+			c.Tag("oneOf:mapping-" + mapStyle)
 		}
 		for i := 0; i < n; i++ {
 			name := c.objectComponent(depth, "oneof", true)
@@ -583,7 +586,17 @@ func (c *Ctx) oneOfSchema(depth int) *Schema {
 			}
 			c.discriminated[name] = true
 			s.OneOf = append(s.OneOf, &Schema{Ref: RefSchemas + name})
-			if withMapping && (i == n-1 || rapid.IntRange(0, 2).Draw(t, "mapped") != 0) {
+			mapped := false
+			switch mapStyle {
+			case "full":
+				mapped = true
+			case "first-only":
+				// (the Cat / Dog / Lizard shape of the OpenAPI text: fewer keys than alternatives)
+				mapped = i == 0
+			default:
+				mapped = i == n-1 || rapid.IntRange(0, 2).Draw(t, "mapped") != 0
+			}
+			if withMapping && mapped {
 				key := c.PlainName("m", "mapkey")
 				// (a key that merely repeats the schema's own name is common in hand-written specs)
 				if rapid.IntRange(0, 3).Draw(t, "mapkey_identity") == 0 {
